@@ -65,7 +65,7 @@ CHECKS['C05'] = dict(
             ('c05_rgba_c', 'rgba4444_h', 5, [_Q]), ('c05_rgba_d', 'rgba4444_p', 5, [_Q]), ('c05_rgba_e', 'rgba4444_b', 5, [_Q]),
             ('c05_misc', 'cmyk8', 1, [_Q]), ('c05_misc', 'cmyk2222', 2, [_Q]), ('c05_misc', 'gray8', 1, [_Q]), ('c05_misc', 'gray4', 1, [_Q]),
             ('c05_misc', 'gray1', 1, [_Q]), ('c05_misc', 'dev5_8', 2, [_Q]), ('c05_misc', 'dev5_12345', 3, [_Q]),
-            ('c05_misc', 'packed_padding', 2, [dict()]),
+            ('c05_misc', 'packed_padding', 2, [dict()]), ('c05_misc', 'ba_exact_bitfield', 2, [dict()]),
             ('c05_san', 'san565', 1, [dict(depth=2, vals=0, rots=1, bgs=2)]), ('c05_san', 'san4444', 2, [dict(depth=2, vals=0, rots=1, bgs=2)]),
             ('c05_san', 'sangray1', 1, [_T1]),
         ]),
@@ -79,10 +79,10 @@ CHECKS['C05'] = dict(
             ('c05_misc', 'gray8', 1, [_T1]), ('c05_misc', 'gray4', 1, [_T1]), ('c05_misc', 'gray1', 1, [_T1]),
             ('c05_misc', 'dev5_8', 8, [_T5]), ('c05_misc', 'dev5_12345', 12, [_T5, _T4v]),
             ('c05_san', 'san565', 2, [_Q]), ('c05_san', 'san4444', 3, [_Q]), ('c05_san', 'sangray1', 1, [_T1]),
-            ('c05_misc', 'packed_padding', 2, [dict()]),
+            ('c05_misc', 'packed_padding', 2, [dict()]), ('c05_misc', 'ba_exact_bitfield', 2, [dict()]),
         ])),
     witnesses_required=dict(all=['units', 'units_clean', 'units_cross_layout', 'units_cross_model', 'units_with_construct', 'units_with_alias',
                                  'units_with_swap', 'units_with_minmax_index', 'units_bit_aligned', 'units_packed', 'units_planar',
-                                 'eq_true', 'eq_false', 'packed_pixels_with_unused_bits', 'assign_cross_layout_distinct', 'construct_ops', 'alias_writes', 'swap_ops', 'minmax_ops']),
+                                 'eq_true', 'eq_false', 'packed_pixels_with_unused_bits', 'bit_aligned_reference_with_exact_width_bitfield', 'assign_cross_layout_distinct', 'construct_ops', 'alias_writes', 'swap_ops', 'minmax_ops']),
     deadline=dict(quick=600, thorough=3000),
 )
